@@ -566,6 +566,8 @@ class Grid:
         """
 
         interp_axes = []
+        to = {}
+        via_center = []
         for axname, axis in self.axes.items():
             try:
                 position_array, _ = axis._get_position_name(array)
@@ -578,10 +580,23 @@ class Grid:
                 continue
             if position_like != position_array:
                 interp_axes.append(axname)
+                to[axname] = position_like
+                if "center" not in (position_like, position_array):
+                    # only shifts from or to the cell center exist
+                    via_center.append(axname)
 
+        if via_center:
+            array = self.interp(
+                array,
+                via_center,
+                to={axname: "center" for axname in via_center},
+                fill_value=fill_value,
+                boundary=boundary,
+            )
         array = self.interp(
             array,
             interp_axes,
+            to=to,
             fill_value=fill_value,
             boundary=boundary,
         )
